@@ -22,22 +22,25 @@ DECL_INPUT(b64_in);
 void h_base64_decode_chunking(void)
 {
 	INPUT(b64_in, T); ASSUME(T.len >= 2 && T.len <= B64_MAXLEN && T.k >= 1 && T.k < T.len);
-	BASE64_CTX a, b; uint8_t oa[64], ob[64]; int la = 0, l1 = 0, l2 = 0, ra, r1, r2 = 1, i;
+	BASE64_CTX a, b; uint8_t oa[64], ob[64]; int la = 0, l1 = 0, l2 = 0, fa = 0, fb = 0, ra, r1, r2 = 1, rfa = 1, rfb = 1, i, oka, okb;
 	memset(oa, 0, sizeof oa); memset(ob, 0, sizeof ob);
 	base64_decode_init(&a); base64_decode_init(&b);
 	ra = base64_decode_update(&a, T.s, T.len, oa, &la);
+	if (ra >= 0) rfa = base64_decode_finish(&a, oa + la, &fa);
 	r1 = base64_decode_update(&b, T.s, T.k, ob, &l1);
 	if (r1 >= 0) r2 = base64_decode_update(&b, T.s + T.k, T.len - T.k, ob + l1, &l2);
-	OBSERVE_INT("ra", ra); OBSERVE_INT("r1", r1); OBSERVE_INT("r2", r2); OBSERVE_INT("la", la); OBSERVE_INT("l1+l2", l1 + l2);
-	/* a first chunk that ends the content (status 0) followed by more text is the caller's error by the function's own
-	   documentation ("the caller is responsible for checking and rejecting a 0 return value in the middle of content") */
+	if (r1 >= 0 && r2 >= 0) rfb = base64_decode_finish(&b, ob + l1 + l2, &fb);
+	oka = ra >= 0 && rfa == 1; okb = r1 >= 0 && r2 >= 0 && rfb == 1;
+	OBSERVE_INT("ra", ra); OBSERVE_INT("r1", r1); OBSERVE_INT("r2", r2); OBSERVE_INT("total_a", la + fa); OBSERVE_INT("total_b", l1 + l2 + fb);
+	/* WHEN bytes are released legitimately depends on the chunking (a chunk ending on a 4-character boundary is decoded at
+	   once); what must not depend on it is the result of the complete update..finish sequence.
+	   A first chunk that ends the content (status 0) followed by more text is the caller's error by the function's own
+	   documentation ("the caller is responsible for checking and rejecting a 0 return value in the middle of content"). */
 	if (r1 == 1) {
-		CHECK((ra < 0) == (r2 < 0), "two chunks are refused exactly when the whole text is refused");
-		if (ra >= 0 && r2 >= 0) {
-			CHECK(ra == r2, "same end-of-content status");
-			CHECK(la == l1 + l2, "same number of decoded bytes");
-			for (i = 0; i < 6; i++) CHECK(i >= la || oa[i] == ob[i], "same decoded bytes");
-			CHECK(a.num == b.num, "same number of buffered characters");
+		CHECK(oka == okb, "update..finish succeeds for two chunks exactly when it succeeds for the whole text");
+		if (oka && okb) {
+			CHECK(la + fa == l1 + l2 + fb, "same number of decoded bytes");
+			for (i = 0; i < 6; i++) CHECK(i >= la + fa || oa[i] == ob[i], "same decoded bytes");
 			CANARY("compared");
 		}
 	}
@@ -46,7 +49,7 @@ void h_base64_decode_chunking(void)
 
 typedef struct { uint8_t m[B64_MAXBIN]; int len; } bin_in;
 DECL_INPUT(bin_in);
-//@job name=base64_roundtrip props=C14 unwind=9 timeout=1800 bounded=binary<=4-bytes layer=bounded-symbolic-execution-of-the-real-functions
+//@job name=base64_roundtrip props=C14 unwind=12 timeout=1800 bounded=binary<=4-bytes layer=bounded-symbolic-execution-of-the-real-functions
 void h_base64_roundtrip(void)
 {
 	INPUT(bin_in, M); ASSUME(M.len >= 1 && M.len <= B64_MAXBIN);
